@@ -1,5 +1,5 @@
 """Engine H: exact-bytes and algorithm-parameter rules for the hash functions (C18; H2 shared with C11)."""
-from .frontend import walk, children, strip, strip_parens, qtype
+from .frontend import walk, children, strip, strip_parens, qtype, AnalysisBroken
 from .expr import canon, access_path, int_value, root_var
 from .dataflow import ReachingDefs, origins
 
@@ -1136,4 +1136,101 @@ def rule_c18(prog, rep):   # noqa: F811  (supersedes the event-list version abov
     rule_fnv_vg(prog, rep, 'qhashfnv1_32', 0x811C9DC5, 0x01000193, 32, 'H4-fnv')
     rule_fnv_vg(prog, rep, 'qhashfnv1_64', 0xCBF29CE484222325, 0x100000001B3, 64, 'H4-fnv')
     rule_md5_vg(prog, rep)
+    rule_md5_pad(prog, rep)
     rule_h6(prog, rep)
+
+
+def rule_md5_pad(prog, rep, rid='H7'):
+    """MD5 padding, in the form the implementation has today (two MD5Update calls, the first with a file-scope padding
+    table): table = 0x80 followed by zeros; pad length as a function of the buffered byte count idx in 0..63 equals
+    ((55 - idx) mod 64) + 1 (constant folding for the 64 values); the bit count is encoded before any update and is what
+    the final update appends.  A padding routine in another form gives no instance (not decided), never a violation."""
+    from .tables import byte_pred
+    from .expr import var_init
+    rep.rule(rid, 'MD5 padding (table form): padding table is 0x80,0,...; pad length(idx) = ((55 - idx) mod 64) + 1 for idx = 0..63; '
+                  'the bit count is encoded before the padding updates and appended last')
+    unit = 'src/internal/md5/md5c.c'
+    u = prog.unit(unit)
+    for f in sorted(prog.funcs_in(unit), key=lambda x: x.line or 0):
+        if f.body is None:
+            continue
+        ups = [x for x in walk(f.body) if x.get('kind') == 'CallExpr' and prog.callee_name(x) == 'MD5Update']
+        tab = None
+        for c in ups:
+            a = strip(children(c)[2]) if len(children(c)) > 3 else None
+            if a is not None and a.get('kind') == 'DeclRefExpr':
+                g = u.globals.get((a.get('referencedDecl') or {}).get('name'))
+                if g is not None and var_init(g) is not None:
+                    tab = (c, g)
+                    break
+        if tab is None:
+            continue
+        call, g = tab
+        # (a) the table
+        vals = []
+        init = var_init(g)
+        for x in children(init):
+            v = int_value(x)
+            vals.append(v)
+        t = qtype(g)
+        import re as _re
+        m = _re.search(r'\[(\d+)\]', t)
+        size = int(m.group(1)) if m else len(vals)
+        full = vals + [0] * (size - len(vals))
+        rep.instance(rid, size)
+        ok = size >= 64 and full[0] == 0x80 and all(v == 0 for v in full[1:])
+        rep.oblige(rid, ok, {'table': g.get('name'), 'size': size, 'first': full[0] if full else None})
+        if not ok:
+            bad = next((i for i, v in enumerate(full) if v != (0x80 if i == 0 else 0)), None)
+            rep.violation(rid, (unit, g.get('name')), g.get('_line'), 'padtable:%s' % g.get('name'),
+                          'the MD5 padding table must be 0x80 followed by at least 63 zero bytes (size %d, first deviating entry %s)' % (size, bad))
+        # (b) pad length as a function of idx
+        lenarg = strip(children(call)[3])
+        consts = {}
+        idxvar = None
+        defs = {}
+        for x in walk(f.body):
+            if x.get('kind') == 'BinaryOperator' and x.get('opcode') == '=':
+                l = strip(children(x)[0])
+                if l.get('kind') == 'DeclRefExpr':
+                    defs.setdefault((l.get('referencedDecl') or {}).get('name'), []).append(children(x)[1])
+            elif x.get('kind') == 'VarDecl' and var_init(x) is not None:
+                defs.setdefault(x.get('name'), []).append(var_init(x))
+        for nm, ds in defs.items():
+            if len(ds) == 1 and '>> 3' in canon(ds[0]).replace('>>3', '>> 3') and '63' in canon(ds[0]).replace('0x3f', '63').replace('0x3F', '63'):
+                idxvar = nm
+        if idxvar is None:
+            raise AnalysisBroken('%s: the buffered-byte index (count >> 3) & 0x3f was not found' % f.name)
+        expr = lenarg
+        if expr.get('kind') == 'DeclRefExpr':
+            nm = (expr.get('referencedDecl') or {}).get('name')
+            if len(defs.get(nm, [])) == 1:
+                expr = defs[nm][0]
+        wrong = []
+        for idx in range(64):
+            v = byte_pred(prog, f, expr, {idxvar: idx}, {})
+            if v is None or isinstance(v, tuple):
+                raise AnalysisBroken('%s: pad length %s cannot be folded for idx=%d' % (f.name, canon(expr)[:60], idx))
+            want = ((55 - idx) % 64) + 1
+            rep.instance(rid)
+            if (v & 0xFFFFFFFF) != want:
+                wrong.append((idx, v, want))
+        rep.oblige(rid, not wrong, {'function': f.name, 'pad_length': canon(expr)[:70], 'idx_values': 64})
+        if wrong:
+            i, v, w = wrong[0]
+            rep.violation(rid, f, call.get('_line'), 'padlen', 'pad length %s is wrong for %d of the 64 buffered-byte counts, e.g. idx=%d gives %d '
+                          '(RFC 1321: pad to 56 mod 64, at least one byte: %d)' % (canon(expr)[:60], len(wrong), i, v, w))
+        # (c) order: Encode(bits, count, 8) before the first update; the last update appends those 8 bytes
+        last = max(ups, key=lambda c: c.get('_line', 0))
+        bits = canon(children(last)[2])
+        first_up = min(c.get('_line', 0) for c in ups)
+        # the call that fills the 8 length bytes (Encode, or memcpy on little-endian builds) from the context's bit count
+        enc = [x for x in walk(f.body) if x.get('kind') == 'CallExpr' and prog.callee_name(x) != 'MD5Update'
+               and len(children(x)) >= 4 and canon(children(x)[1]) == bits and 'count' in canon(children(x)[2])]
+        rep.instance(rid)
+        ok = len(ups) >= 2 and bool(enc) and enc[0].get('_line', 0) < first_up and int_value(children(last)[3]) == 8 \
+            and int_value(children(enc[0])[3]) == 8 and last is not call
+        rep.oblige(rid, ok, {'function': f.name, 'order': 'encode count, pad, append count'})
+        if not ok:
+            rep.violation(rid, f, f.line, 'padorder', 'the 64-bit bit count must be encoded before the padding is fed to MD5Update (which '
+                          'advances the count) and appended as the last 8 bytes')
